@@ -521,7 +521,7 @@ var planeSeen = map[string]bool{}
 // the small random plans are written out as foreign valid VP8L files (used by harness/c05).
 func writeCorpus(i int, p *pplan, file []byte) {
 	dir := os.Getenv("C03_WRITE_CORPUS")
-	if dir == "" || (len(file) > 6000 && !(i < 17 && len(file) < 60000)) { // the covering plans come first
+	if dir == "" || (len(file) > 6000 && !(i < 25 && len(file) < 60000)) { // the covering plans come first
 		return
 	}
 	os.MkdirAll(dir, 0o755)
